@@ -1,1 +1,226 @@
-fn main(){}
+//! Stand-in external SAT program. Options are plain `key=value` words (no leading hyphens):
+//!   log=<path>      append one JSON record per call (strict DIMACS verdict on the instance received)
+//!   cnt=<path>      process-wide call counter file (for fail=...@k)
+//!   pad=<N>         N bytes of comment lines before the answer
+//!   vwidth=<W>      literals per `v` line (default 8)
+//!   reply=<path>    print the file's bytes verbatim instead of solving (echo-file mode)
+//!   fail=<kind>@<k> misbehave at the k-th call (1-based; k=0: every call):
+//!                   exit-silent | status-only | truncate-zero | truncate-token | truncate-mid |
+//!                   garbage-line | two-status | var-out-of-range | crash | unknown-status
+//!   behav=<b>       readall (default) | writefirst (write the whole reply before reading stdin) |
+//!                   interleave (alternate reading a chunk and writing a chunk) |
+//!                   partial-exit (write half the reply, then exit without reading) | exit-at-once |
+//!                   noread (write the reply, never read stdin)
+//!   capout=<path>   write the stdout pipe capacity (F_GETPIPE_SZ) to this file
+use cvx::dimacs::parse_dimacs;
+use cvx::dpll;
+use std::io::{Read, Write};
+
+fn opt<'a>(args: &'a [String], key: &str) -> Option<&'a str> {
+    let p = format!("{}=", key);
+    args.iter().find_map(|a| a.strip_prefix(p.as_str()))
+}
+
+fn bump_counter(path: Option<&str>) -> usize {
+    match path {
+        None => 1,
+        Some(p) => {
+            let n: usize = std::fs::read_to_string(p).ok().and_then(|s| s.trim().parse().ok()).unwrap_or(0) + 1;
+            let _ = std::fs::write(p, format!("{}", n));
+            n
+        }
+    }
+}
+
+fn main() {
+    let args: Vec<String> = std::env::args().skip(1).collect();
+    let behav = opt(&args, "behav").unwrap_or("readall");
+    let call = bump_counter(opt(&args, "cnt"));
+    if let Some(p) = opt(&args, "capout") {
+        let sz = unsafe { libc::fcntl(1, libc::F_GETPIPE_SZ) };
+        let sz_in = unsafe { libc::fcntl(0, libc::F_GETPIPE_SZ) };
+        let _ = std::fs::write(p, format!("{} {}", sz, sz_in));
+    }
+    if behav == "exit-at-once" {
+        std::process::exit(0);
+    }
+    let fail = opt(&args, "fail").and_then(|f| {
+        let mut it = f.split('@');
+        let kind = it.next()?.to_string();
+        let k: usize = it.next().and_then(|x| x.parse().ok()).unwrap_or(0);
+        Some((kind, k))
+    });
+    let active_fail: Option<String> = match &fail {
+        Some((kind, k)) if *k == 0 || *k == call => Some(kind.clone()),
+        _ => None,
+    };
+    let stdout = std::io::stdout();
+    let mut out = stdout.lock();
+    let pad: usize = opt(&args, "pad").and_then(|x| x.parse().ok()).unwrap_or(0);
+    let vwidth: usize = opt(&args, "vwidth").and_then(|x| x.parse().ok()).unwrap_or(8).max(1);
+
+    // behaviours that produce the reply without (or before) reading stdin need a canned reply
+    let canned = |out: &mut dyn Write| {
+        write_padding(out, pad);
+        let _ = out.write_all(b"s UNSATISFIABLE\n");
+        let _ = out.flush();
+    };
+    match behav {
+        "noread" => {
+            canned(&mut out);
+            std::process::exit(0);
+        }
+        "writefirst" => {
+            canned(&mut out);
+            let mut sink = Vec::new();
+            let _ = std::io::stdin().read_to_end(&mut sink);
+            log_call(&args, call, &sink, "writefirst");
+            std::process::exit(0);
+        }
+        "partial-exit" => {
+            write_padding(&mut out, pad / 2);
+            let _ = out.flush();
+            std::process::exit(0);
+        }
+        _ => {}
+    }
+    let mut input = Vec::new();
+    if behav == "interleave" {
+        // alternate: read up to 4096 bytes, write one chunk of padding
+        let mut stdin = std::io::stdin();
+        let mut buf = [0u8; 4096];
+        let mut written = 0usize;
+        loop {
+            let n = stdin.read(&mut buf).unwrap_or(0);
+            if n == 0 {
+                break;
+            }
+            input.extend_from_slice(&buf[..n]);
+            if written < pad {
+                let k = (pad - written).min(4096);
+                write_padding(&mut out, k);
+                let _ = out.flush();
+                written += k;
+            }
+        }
+        if written < pad {
+            write_padding(&mut out, pad - written);
+        }
+    } else {
+        let _ = std::io::stdin().read_to_end(&mut input);
+        write_padding(&mut out, pad);
+    }
+    let rep = parse_dimacs(&input);
+    log_call(&args, call, &input, if rep.wellformed() { "ok" } else { "malformed" });
+    if let Some(p) = opt(&args, "reply") {
+        let bytes = std::fs::read(p).unwrap_or_default();
+        let _ = out.write_all(&bytes);
+        let _ = out.flush();
+        return;
+    }
+    if let Some(kind) = &active_fail {
+        match kind.as_str() {
+            "exit-silent" => std::process::exit(0),
+            "crash" => {
+                let _ = out.flush();
+                unsafe { libc::abort() };
+            }
+            "garbage-line" => {
+                let _ = out.write_all(b"Segmentation fault (core dumped)\n");
+                let _ = out.flush();
+                return;
+            }
+            "unknown-status" => {
+                let _ = out.write_all(b"s UNKNOWN\n");
+                let _ = out.flush();
+                return;
+            }
+            _ => {}
+        }
+    }
+    // solve
+    let nv = rep.header_vars.unwrap_or(0).max(rep.max_var);
+    let vars = dpll::occurring_vars(&rep.clauses, &[]);
+    let (models, _) = dpll::all_models(&rep.clauses, &[], &vars, 1);
+    if models.is_empty() {
+        let _ = out.write_all(b"s UNSATISFIABLE\n");
+        let _ = out.flush();
+        return;
+    }
+    let mut vals = vec![false; nv];
+    for (k, &v) in vars.iter().enumerate() {
+        vals[v as usize - 1] = models[0][k];
+    }
+    let mut text = String::from("s SATISFIABLE\n");
+    let lits: Vec<String> = vals.iter().enumerate().map(|(i, b)| if *b { format!("{}", i + 1) } else { format!("-{}", i + 1) }).collect();
+    let mut model_lines: Vec<String> = lits.chunks(vwidth).map(|c| format!("v {}", c.join(" "))).collect();
+    if model_lines.is_empty() {
+        model_lines.push("v".to_string());
+    }
+    let last = model_lines.len() - 1;
+    model_lines[last].push_str(" 0");
+    let model_text = model_lines.join("\n") + "\n";
+    match active_fail.as_deref() {
+        Some("status-only") => {}
+        Some("truncate-zero") => {
+            // drop the terminating " 0"
+            let t = model_text.trim_end_matches('\n');
+            let t = t.strip_suffix(" 0").unwrap_or(t);
+            text.push_str(t);
+            text.push('\n');
+        }
+        Some("truncate-token") => {
+            // cut the model at a token boundary in the middle, no terminator, no newline
+            let toks: Vec<&str> = model_text.split(' ').collect();
+            let keep = (toks.len() / 2).max(1);
+            text.push_str(&toks[..keep].join(" "));
+        }
+        Some("truncate-mid") => {
+            // cut inside the text of the reply (possibly inside a token), no newline
+            let cut = model_text.len() / 2;
+            text.push_str(&model_text[..cut.max(1)]);
+        }
+        Some("two-status") => {
+            text.push_str(&model_text);
+            text.push_str("s UNSATISFIABLE\n");
+        }
+        Some("var-out-of-range") => {
+            text.push_str(&format!("v {} 0\n", nv + 5));
+        }
+        _ => text.push_str(&model_text),
+    }
+    let _ = out.write_all(text.as_bytes());
+    let _ = out.flush();
+}
+
+fn write_padding(out: &mut dyn Write, n: usize) {
+    // comment lines of 64 bytes ("c " + 61 x + "\n")
+    let line = format!("c {}\n", "x".repeat(61));
+    let mut left = n;
+    while left >= line.len() {
+        if out.write_all(line.as_bytes()).is_err() {
+            std::process::exit(0);
+        }
+        left -= line.len();
+    }
+    if left >= 2 {
+        let l = format!("c{}\n", " ".repeat(left - 2));
+        let _ = out.write_all(l.as_bytes());
+    } else if left == 1 {
+        let _ = out.write_all(b"\n");
+    }
+}
+
+fn log_call(args: &[String], call: usize, input: &[u8], verdict: &str) {
+    if let Some(p) = opt(args, "log") {
+        let rep = parse_dimacs(input);
+        let rec = serde_json::json!({
+            "call": call, "verdict": verdict, "bytes": input.len(),
+            "header_vars": rep.header_vars, "header_clauses": rep.header_clauses,
+            "max_var": rep.max_var, "n_clauses": rep.clauses.len(), "problems": rep.problems,
+        });
+        if let Ok(mut f) = std::fs::OpenOptions::new().create(true).append(true).open(p) {
+            let _ = writeln!(f, "{}", rec);
+        }
+    }
+}
